@@ -23,8 +23,8 @@ VERIF = os.path.dirname(os.path.dirname(os.path.abspath(__file__)))
 REPO = os.environ.get("VK_REPO", "/repo")
 BUILD = os.environ.get("VK_BUILD", os.path.join(VERIF, "build"))
 HARNESS = os.path.join(VERIF, "harness")
-EVIDENCE = os.path.join(VERIF, "evidence")
-REPLAYS = os.path.join(VERIF, "replays")
+EVIDENCE = os.environ.get("VK_EVIDENCE", os.path.join(VERIF, "evidence"))
+REPLAYS = os.environ.get("VK_REPLAYS", os.path.join(VERIF, "replays"))
 KF_FILE = os.path.join(VERIF, "known_findings.json")
 
 GUARD = "KALIGN_VERIF"
